@@ -54,19 +54,36 @@ func (s *scripted) Connect(manager cert.TlsConfig, mustSecure bool) error {
 	}
 	a, b := netsim.Pipe(netsim.Addr{Net: "mem", Str: "client"}, netsim.Addr{Net: "mem", Str: "peer-" + s.kind}, 0)
 	s.conns = append(s.conns, a)
-	if s.kind == "503" {
+	if s.kind == "503" || s.kind == "silent-after-announce" || s.kind == "stalls-in-starttls" {
 		go func() {
 			rd := bufio.NewReader(b)
-			for {
-				l, err := rd.ReadString('\n')
-				if err != nil {
-					return
-				}
-				if l == "\r\n" {
-					break
+			readReq := func() bool {
+				for {
+					l, err := rd.ReadString('\n')
+					if err != nil {
+						return false
+					}
+					if l == "\r\n" {
+						return true
+					}
 				}
 			}
-			b.Write([]byte("HTTP/1.1 503 Service Unavailable\r\nServer: scripted\r\n\r\n"))
+			if !readReq() {
+				return
+			}
+			switch s.kind {
+			case "503":
+				b.Write([]byte("HTTP/1.1 503 Service Unavailable\r\nServer: scripted\r\n\r\n"))
+			case "silent-after-announce":
+				b.Write([]byte("HTTP/1.1 200 OK\r\nProtocol-Version: v2.0.0\r\nServer: scripted\r\n\r\n"))
+			case "stalls-in-starttls":
+				b.Write([]byte("HTTP/1.1 200 OK\r\nProtocol-Version: v2.0.0\r\nCapabilities: StartTLS\r\nServer: scripted\r\n\r\n"))
+				if !readReq() {
+					return
+				}
+				b.Write([]byte("HTTP/1.1 101 Switching Protocols\r\nConnection: upgrade\r\nUpgrade: socketace/v2.0.0\r\n\r\n"))
+				// ... and never answers the TLS ClientHello
+			}
 		}()
 	}
 	// "silent": the peer accepted the connection and never says anything
@@ -262,7 +279,7 @@ func execute(t *testing.T, c Case) (kind, detail string) {
 }
 
 func cases(thorough bool) []Case {
-	kinds := []string{"ok", "refuses", "silent", "503", "insecure"}
+	kinds := []string{"ok", "refuses", "silent", "503", "insecure", "silent-after-announce", "stalls-in-starttls"}
 	var lists [][]string
 	maxLen := 3
 	if thorough {
